@@ -393,10 +393,18 @@ class Attrs(tuple):
         remove = set([an for an, av in attrs if av is None])
         replace = dict([(an, av) for an, av in attrs
                         if an in self and av is not None])
+        new = []
+        for an, av in attrs:
+            if an in self or an in remove:
+                continue
+            for idx, (nn, _) in enumerate(new):
+                if nn == an:
+                    new[idx] = (an, av)
+                    break
+            else:
+                new.append((an, av))
         return Attrs([(sn, replace.get(sn, sv)) for sn, sv in self
-                      if sn not in remove] +
-                     [(an, av) for an, av in attrs
-                      if an not in self and an not in remove])
+                      if sn not in remove] + new)
 
     def __repr__(self):
         if not self:
